@@ -41,6 +41,7 @@ def run_cases(ctx, cases, label, scratch):
         links = c.tree.link_paths()
         i, m = canon_result(i, links), canon_result(m, links)
         i, m = exhausted(i, m)
+        i, m = sort_logs_after_save(c.ops, i), sort_logs_after_save(c.ops, m)
         if i != m:
             ctx.violation('correspondence', f'{label}: model and implementation differ',
                           {'where': label, 'meta': {k: v for k, v in c.meta.items() if k not in ('paths', 'stamps')}, 'ops': c.ops,
@@ -52,11 +53,30 @@ def run_cases(ctx, cases, label, scratch):
 def exhausted(i, m):
     """Manifests loaded endlessly through a symlink cycle: the kernel ends it (ELOOP after 40 links, ENAMETOOLONG),
     the model by running out of fuel - both are 'no answer, an error'"""
-    if i[0] == 'ok' and m[0] == 'ok' and i[1] and m[1] and len(i[1]) == len(m[1]):
-        a, b = i[1][-1], m[1][-1]
-        if b == ['err', ['OutOfFuel']] and a[0] == 'err' and a[1][0] == 'OSError' and a[1][1] in ('ELOOP', 'ENAMETOOLONG'):
-            return ['ok', i[1][:-1] + [['err', ['Exhausted']]]], ['ok', m[1][:-1] + [['err', ['Exhausted']]]]
+    if i[0] == 'ok' and m[0] == 'ok' and len(i[1]) == len(m[1]):
+        for k, (a, b) in enumerate(zip(i[1], m[1])):
+            if a[0] != 'ok' or b[0] != 'ok':
+                if b == ['err', ['OutOfFuel']] and a[0] == 'err' and a[1][0] == 'OSError' and a[1][1] in ('ELOOP', 'ENAMETOOLONG'):
+                    x = [['err', ['Exhausted']]]
+                    return ['ok', i[1][:k] + x + i[1][k + 1:]], ['ok', m[1][:k] + x + m[1][k + 1:]]
+                break
     return i, m
+
+
+def sort_logs_after_save(ops, x):
+    """files created by a save are enumerated last by the model and by name-key by the harness: the keep-going
+    call log of a verification that follows a save is compared as a set"""
+    if not (isinstance(x, list) and len(x) == 2 and x[0] == 'ok' and isinstance(x[1], list)):
+        return x
+    out = []
+    saved = False
+    for op, y in zip(ops, x[1]):
+        if op[0] == 'save':
+            saved = True
+        if saved and op[0] == 'verify' and y[0] == 'ok' and isinstance(y[1], list) and len(y[1]) == 2 and isinstance(y[1][1], list):
+            y = ['ok', [y[1][0], sorted(y[1][1], key=str)]]
+        out.append(y)
+    return ['ok', out + x[1][len(out):]]
 
 
 def canon_result(x, links=()):
@@ -680,7 +700,7 @@ def gen_update_case(r, profile='default', rounds=None):
     upath = r.choice([''] * 3 + [d for d in c.meta['dirs'] if d and not d.startswith('.') and '/.' not in d])
     ops = [['update', upath, [], []],
            ['save', [], 1 if r.random() < 0.15 else 0, [], [], []],
-           ['files'], ['reload'], ['verify', upath, 0, []]]
+           ['files'], ['reload'], ['verify', upath, 1, []]]
     for _ in range(rounds if rounds is not None else r.choice([0, 0, 1])):
         ops += [['update', upath, [], []], ['save', [], 0, [], [], []], ['files']]
     c.ops = ops
